@@ -40,6 +40,11 @@ def run(ctx):
     # quiescent => final, no lost message, no internal error; for C10 also: runs with pause/resume end like runs without
     from harness import engine_explore as ee
     ee.explore(ctx, ['C10', 'C01'], ee.FEATURES, ctx.n(30, 300), 4, suite='engine_explore_C10')
+    # "tasks created before the pause may still start and finish, including their retries, delays and remaining items":
+    # the features with attempts / delays / items, paused on three of four schedules at rates 6 / 12 / 25 % per step
+    # (results delivered while PAUSED), compared with the never-paused schedule of the same program
+    ee.explore(ctx, ['C10', 'C01'], ['retry', 'retry', 'policies', 'with_items', 'retry'], ctx.n(25, 300), 4,
+               suite='engine_explore_C10_paused', pause_heavy=True)
     ctx.cov['rule'] += '; tree part: ' + engine_stoptree.RULE
     engine_stoptree.run(ctx, ctx.n(160, 2000), suite='engine_stoptree_C10', props=('C10',))
 
